@@ -14,8 +14,8 @@ pub struct C04;
 const STATUSES: [u16; 17] = [
     100, 101, 199, 200, 201, 204, 205, 299, 300, 304, 400, 404, 499, 500, 599, 600, 999,
 ];
-const LENGTHS_T: [usize; 11] = [0, 1, 2, 8191, 8192, 8193, 16385, 32767, 32768, 32769, 70000];
-const LENGTHS_Q: [usize; 6] = [0, 1, 8192, 8193, 32768, 70000];
+const LENGTHS_T: [usize; 14] = [0, 1, 2, 8191, 8192, 8193, 16385, 32767, 32768, 32769, 65535, 65536, 65537, 70000];
+const LENGTHS_Q: [usize; 7] = [0, 1, 8192, 8193, 32768, 65536, 70000];
 const TES: [Option<&str>; 7] = [
     None,
     Some("chunked"),
@@ -345,6 +345,20 @@ impl Check for C04 {
             l1_run(idx - n0, acc, false);
         }
     }
+    fn crash_is_violation(&self) -> bool {
+        // a process abort (e.g. a panic while unwinding from a panic inside the encoder) while
+        // one response is being printed: that response is certainly not a well-formed message
+        true
+    }
+    fn describe_item(&self, idx: u64, tier: Tier) -> (String, Value) {
+        let n0 = space(tier).size();
+        if idx < n0 {
+            let cfg = decode(idx, tier);
+            ("raw_print".to_string(), json!({"config": cfg.to_json()}))
+        } else {
+            ("connection".to_string(), json!({"l1_index": idx - n0}))
+        }
+    }
     fn rule(&self, tier: Tier) -> String {
         format!(
             "full product status{:?} x body length{:?} x declared/undeclared x threshold{{0,1,len-1,len,len+1,default,usize::MAX}} x version{{1.0,1.1}} x HEAD/GET x TE{:?} x reader piece size{:?} (0=whole, max=irregular cycle) x extra headers 0..{} = {} responses printed by Response::raw_print; each output must be consumed exactly by the independent RFC 7230 client parser, which must recover the status and exactly the body; plus {} responses sent through a real connection (status x length {{0,5,8193,40000}} x declared/undeclared x GET/HEAD x HTTP/1.0 keep-alive/1.1 x TE absent/chunked/identity, followed by a second request whose answer must be found right after); non-trivial = body length > 0",
@@ -358,6 +372,25 @@ impl Check for C04 {
         ]
     }
     fn replay(&self, replay: &Value, acc: &mut Acc) {
+        if replay["kind"].as_str() == Some("crash") {
+            // a crash is replayed in a subprocess: this process would die with it
+            let item = replay["item"].as_u64().unwrap_or(0);
+            let tier = if replay["tier"].as_str() == Some("quick") { Tier::Quick } else { Tier::Thorough };
+            let exe = std::env::current_exe().unwrap();
+            let out = std::process::Command::new(exe).args(["C04", "--tier", tier.name(), "--run-item", &item.to_string()]).output();
+            match out {
+                Ok(o) if o.status.success() => {
+                    acc.notes.insert(format!("item {} runs to completion now", item));
+                }
+                Ok(o) => acc.violation(
+                    &format!("process-abort:{}", replay["class"].as_str().unwrap_or("raw_print")),
+                    format!("the process died ({:?}): {}", o.status, String::from_utf8_lossy(&o.stderr).lines().last().unwrap_or("")),
+                    replay.clone(),
+                ),
+                Err(e) => acc.machinery_errors.push(e.to_string()),
+            }
+            return;
+        }
         if let Some(i) = replay["l1_index"].as_u64() {
             l1_run(i, acc, true);
             return;
